@@ -75,3 +75,41 @@ extern "C" void c17_refcount()
   }
   if (extra) verif_assert(extra->_instance == OBJ[extra_owner] && *extra->_refcount == (extra_owner == 0 ? n0 : n1), "C17: a copy refers to the same object and is counted");
 }
+
+// C17-K2: a method call is compiled for one module (type id); at run time it may only be executed on a live object of THAT module
+// (MemberMETHODExpression::value). The receiver holds an object whose module id is symbolic (the variable may have been re-bound since
+// the call was compiled): the module's executeMethod is reached exactly when the ids agree, otherwise a BLOC error is raised; a null
+// receiver yields null and executes nothing.
+#include <blocc/member/member_complex.h>
+static int exec_calls = 0; static void* exec_on = nullptr;
+struct ExecPlugin : public plugin::PluginBase {
+  void declareInterface(PLUGIN_INTERFACE*) override { }
+  void* createObject(int, Context&, const std::vector<Expression*>&) override { return nullptr; }
+  void destroyObject(void*) override { }
+  Value* executeMethod(Complex& o, int, Context&, const std::vector<Expression*>&) override { ++exec_calls; exec_on = o.instance(); return new Value(Integer(1)); }
+};
+extern "C" void c17_dispatch()
+{
+  static Context ctx(1, 2);
+  PluginManager& pm = PluginManager::instance();
+  static ExecPlugin plugA, plugB;
+  pm._modules.reserve(3);
+  PLUGGED_MODULE ma; ma.interface = PluginManager::_internal; ma.instance = &plugA; ma.dlhandle = nullptr;
+  PLUGGED_MODULE mb; mb.interface = PluginManager::_internal; mb.instance = &plugB; mb.dlhandle = nullptr;
+  pm._modules.push_back(ma);                      /* type id 1: the module the call was compiled for */
+  pm._modules.push_back(mb);                      /* type id 2: another module */
+  static PLUGIN_METHOD meth; meth.id = 0; meth.name = "count"; meth.ret.decl = "I"; meth.ret.ndim = 0; meth.args_count = 0; meth.args = nullptr; meth.brief = "";
+  static char obj;
+  int tid = in_bool(0) ? 1 : 2; bool isnull = in_bool(1);
+  Value* recv = new Value(new Complex(tid, &obj));
+  if (isnull) recv->swap(Value(Type(Type::COMPLEX, (Type::TypeMinor)tid)));
+  recv->to_lvalue(true);
+  SymExpr* e0 = new SymExpr(recv);
+  MemberMETHODExpression* m = new MemberMETHODExpression(meth, 1, e0);
+  bool thrown = false; Value* r = nullptr;
+  try { r = &m->value(ctx); } catch (RuntimeError&) { thrown = true; } catch (...) { verif_assert(false, "C01: only RuntimeError may leave a method call"); return; }
+  VX_WITNESS();
+  if (isnull) { verif_assert(!thrown && r != nullptr && r->isNull() && exec_calls == 0, "C17: a method call on a null object yields null and executes nothing"); return; }
+  if (tid != 1) verif_assert(thrown && exec_calls == 0, "C17: a method is only ever executed on an object of the module that defines it - an object of another module is refused");
+  else verif_assert(!thrown && exec_calls == 1 && exec_on == &obj, "C17: a method call on an object of its module executes the method once, on that object");
+}
